@@ -368,7 +368,7 @@ fn gen_geo(r: &mut Rng) -> GeoCase {
 pub fn c19(a: &Args, rep: &mut Report) {
     rep.rule = "cases = argument tuples of the exported geometry helpers (intersect_planes, Plane::project_onto, Plane::project_onto_intersection, signed_volume_tet, signed_area_tri, Sphere::from_two/three/four_points, Sphere::extend/contains): random and structured (axis aligned, small integers, nearly dependent, large offset, scales 1e-6..1e6); distinct = distinct argument tuple hash; non-trivial = the arguments were well enough conditioned for the defining equations to be decided (ill-conditioned ones are counted separately and carry no verdict)".into();
     rep.assumptions = vec!["residual tolerances 256 u x scale x condition number".into()];
-    let n = ncases(a, 400_000, 20_000_000);
+    let n = ncases(a, 4_000_000, 100_000_000);
     let nw = n_workers() as u64;
     let hashes = std::sync::Mutex::new(std::collections::HashSet::<u64>::new());
     run_parallel(rep, nw, budget(a, 100., 600.), |wk, rep| {
@@ -670,7 +670,7 @@ pub fn c20(a: &Args, rep: &mut Report) {
     rep.rule = "cases = (a) particle sets in cubic and non-cubic boxes (aspect up to 1:20, anchors off the origin) x grid cell sizes from one cell to ~1 particle per cell and sparse grids x k in {0, 1, random, n-1}: every row of Space::knn against brute force (as distance sequences, so ties may come in any order); (b) point sets (random, co-spherical, coplanar, near-collinear, n = 1..60) for Welzl (minimality against a brute-force search over all support sets of 2-4 points for n <= 13) and Epos6 (containment); (c) sphere sets incl. nested and zero-radius spheres for Epos6::bounding_sphere_of_spheres; distinct = distinct case hash; non-trivial = at least 2 points".into();
     rep.assumptions = vec!["Welzl::bounding_sphere_of_spheres is unimplemented!() by declaration and is not exercised".into()];
     let thorough = a.tier == "thorough";
-    let n = ncases(a, 6000, 200_000);
+    let n = ncases(a, 30000, 600_000);
     let hashes = std::sync::Mutex::new(std::collections::HashSet::<u64>::new());
     run_parallel(rep, n, budget(a, 100., 900.), |k, rep| {
         let mut r = Rng::stream("C20", &[a.seed, k]);
